@@ -369,5 +369,7 @@ func main() {
 		seqPart(w, r)
 	case "race":
 		racePart(w, r)
+	case "sched":
+		schedPart(w, r)
 	}
 }
